@@ -68,10 +68,10 @@ def run(ck, rng, tier):
             elif c == 6:    # a diagonal re-coding of condition 100 in units of 4e2 .. 4e4
                 A, cvec = np.diag(np.logspace(math.log10(4e2), math.log10(4e4), m)), cvec * 1e3
             elif c in (7, 8):
-                # features in different units within one data set: the first in units of 300 (variance of order 1e5), another in
+                # features in different units within one data set: the first in units of 1e5 (variance of order 1e10), another in
                 # units of 1e-2 (variance of order 1e-4), the rest of unit scale; in the other order for c == 8
                 d = [1.0] * m
-                d[0], d[1 if c == 7 else m - 1] = 300.0, 1e-2
+                d[0], d[1 if c == 7 else m - 1] = 1e5, 1e-2
                 if c == 8:
                     d = d[::-1]
                 A = np.diag(d)
@@ -169,8 +169,14 @@ def run(ck, rng, tier):
             S0, S1 = np.array(o0["score_test"]), np.array(o["score_test"])
             d0 = S0 - S0[:, [0]]
             d1 = S1 - S1[:, [0]]
-            tol = 1e-6 * max(1.0, np.abs(d0).max()) * (np.linalg.cond(mt[1]) ** 2 if mt[0] == "affine" else 1.0)
-            if np.abs(d0 - d1).max() > tol:
+            # a diagonal map is a change of units feature by feature: elimination with pivoting follows it exactly up to rounding, so
+            # its condition number does not enter the tolerance
+            diag_map = mt[0] == "affine" and np.count_nonzero(mt[1] - np.diag(np.diagonal(mt[1]))) == 0
+            tol = 1e-6 * max(1.0, np.abs(d0).max()) * (np.linalg.cond(mt[1]) ** 2 if (mt[0] == "affine" and not diag_map) else 1.0)
+            if not np.isfinite(S1).all() and np.isfinite(S0).all():
+                ck.fail("LDAPrediction", "invariance_" + mt[0], "discriminant scores are not finite after %s (they are finite before)" % ("an invertible affine map" if mt[0] == "affine" else "a reordering of the training objects"),
+                        {"X": X.tolist(), "labels": [l + start for l in lab], "map": mt[1].tolist() if mt[0] == "affine" else mt[1]})
+            elif not (np.abs(d0 - d1).max() <= tol):
                 ck.fail("LDAPrediction", "invariance_" + mt[0], "discriminant-score differences change by %.3g under %s" % (np.abs(d0 - d1).max(), "an invertible affine map" if mt[0] == "affine" else "a reordering of the training objects"),
                         {"X": X.tolist(), "labels": [l + start for l in lab]})
             elif sep >= 6.0 and o0["pred_test"] != o["pred_test"] and np.abs(np.sort(S0, axis=1)[:, -1] - np.sort(S0, axis=1)[:, -2]).min() > 1e-6:
